@@ -1,0 +1,32 @@
+//go:build verif
+
+package gcsemu
+
+import (
+	"time"
+
+	"github.com/fullstorydev/emulators/storage/gcsutil"
+)
+
+// VerifSim holds the callbacks of the deterministic simulator (build tag "verif").
+// With all of them nil the tag-on build behaves exactly like the tag-off build.
+var VerifSim struct {
+	Yield   func(point string)
+	TimeNow func() time.Time
+}
+
+func simYield(p string) {
+	if f := VerifSim.Yield; f != nil {
+		f(p)
+	}
+}
+
+func timeNow() time.Time {
+	if f := VerifSim.TimeNow; f != nil {
+		return f()
+	}
+	return time.Now()
+}
+
+// VerifLocks exposes the per-object lock map.
+func (g *GcsEmu) VerifLocks() *gcsutil.TransientLockMap { return g.locks }
